@@ -110,7 +110,8 @@ def run(ctx):
     ctx.rule = ("L1: random reachable reducer histories with waiters (requirements, timeouts, duplicate responses, "
                 "timeouts after resolution, re-registration, serialize/resume ops); L2: generated wait workflows on "
                 "the real engine under virtual time (responses in any order, duplicated, before the waiter exists; "
-                "timeouts); distinct key = history index with >5 ops / (seed, resumption counts)")
+                "timeouts; snapshots of runs with waiting steps, restored after 0-2 extra serialization round trips, then given "
+                "non-matching and matching events); distinct key = history index with >5 ops / (seed, resumption counts)")
     ctx.prove()
     run_l1(ctx, ctx.n(160, 4000), l1_monitor, THEOREMS, need=("waiter_timeout_scheduled", "tick_TickWaiterTimeout"))
     rng = random.Random(ctx.seed * 41 + 17)
@@ -137,6 +138,35 @@ def run(ctx):
     ctx.require_coverage("engine", "wait_results", results, 20)
     ctx.require_coverage("engine", "wait_timeouts", timeouts, 5)
     ctx.require_coverage("engine", "runs_with_duplicate_response", dups, 5)
+    # waiters across serialization: runs snapshotted (0-2 extra round trips) while steps wait with requirements, resumed,
+    # then given a non-matching event of the awaited type before the matching one
+    import vloop
+    from props._waitsnap import _wait_snapshot_resume
+    n3, snaps, wrong = ctx.n(60, 1500), 0, 0
+    for i in range(n3):
+        seed = rng.randrange(1 << 30)
+        r = vloop.run(_wait_snapshot_resume(seed))
+        if not r.get("snapshot"):
+            continue
+        snaps += 1
+        wrong += 1 if any("wrong" in x for x in r["remaining"]) else 0
+        ctx.count(1, ("waitsnap", seed % 1000, r["delivered_before"], tuple(r["remaining"]), r["round_trips"]))
+        for x in r["rec"].log:
+            if x["kind"] == "wait-result":
+                got = x["got"][2]
+                bad = {k: v for k, v in x["reqs"].items() if got.get(k) != v}
+                if bad:
+                    fails.append(dict(template="waitflow snapshot/resume", seed=seed, actions=r["remaining"],
+                                      why="after a snapshot (%d extra serialization round trips) and resume, the waiter of "
+                                          "invocation %s with requirements %s was resolved by %s" % (r["round_trips"], x["i"], x["reqs"], got)))
+        if not r["obs"].done or r["obs"].exception is not None:
+            fails.append(dict(template="waitflow snapshot/resume", seed=seed, actions=r["remaining"],
+                              why="a run resumed with waiting steps (%d extra serialization round trips) did not complete "
+                                  "although every matching event was delivered: done=%s exception=%r"
+                                  % (r["round_trips"], r["obs"].done, r["obs"].exception)))
+    ctx.programs += n3
+    ctx.suite("engine.waiters_across_snapshot", attempts=n3, snapshots=snaps, non_matching_event_after_resume=wrong)
+    ctx.require_coverage("engine.waiters_across_snapshot", "non_matching_event_after_resume", wrong, 10)
     for f in fails[:3]:
         ctx.violation("C10 fails on the real engine: %s" % f["why"],
                       dict(kind="implementation-monitor/L2", input=f,
